@@ -40,9 +40,17 @@ package curve
 //@   ensures result != nil && fresh(result) && scval(result) == s_zero() && (typeis(self, Secp256k1) ==> typeis(result, *Secp256k1Scalar))
 //@ interface Curve method Name
 //@   pure
+//@ spec fn sbits(Iface) Int
+//@ axiom forall(g, any, sbits(g) > 0 && sbits(g) <= 4096)
+// closed world (A-SECP): the only curve is secp256k1, whose ScalarBits is 256 (its own contract below)
+//@ axiom forall(g, any, implements(g, Curve) ==> sbits(g) == 256)
+//@ func (Secp256k1).ScalarBits
+//@   nopanic[C05]
+//@   pure
+//@   ensures result == 256
 //@ interface Curve method ScalarBits
 //@   pure
-//@   ensures result > 0 && result <= 4096
+//@   ensures result > 0 && result <= 4096 && result == sbits(self)
 //@ interface Curve method SafeScalarBytes
 //@   pure
 //@   ensures result > 0 && result <= 4096
